@@ -652,7 +652,52 @@ def kinds_of(v):
     return tuple((k, "none" if x is None else type(x).__name__) for k, x in sorted(v.items()))
 
 
+KEY_EVICT = "lambda-cache-eviction-of-earlier-link-stale-value"
+
+
+def eviction_probe(ctx, env, record=True):
+    """known finding, exercised deterministically: the lambda cache is a bounded LRU; when
+    the entry of an EARLIER link of a chain is evicted while a later link's entry survives,
+    the rebuilt earlier link gets new bind keys, the surviving later entry still holds the
+    old ones, and the first invocation's value is served from then on (default options)."""
+    t = env.fx.t
+    cache = {}
+
+    def mk(a):
+        st = SA.lambda_stmt(lambda: SA.select(t.c.id), lambda_cache=cache)
+        st = st.add_criteria(lambda q: q.where(t.c.x > a))
+        st = st.add_criteria(lambda q: q.order_by(t.c.id))
+        return st, SA.select(t.c.id).where(t.c.x > a).order_by(t.c.id)
+
+    r0 = execute(env, mk(1083)[0], False, False)
+    mid = [k for k in list(cache) if sum(1 for c in k if hasattr(c, "co_code")) == 2]
+    for k in mid:
+        del cache[k]  # what LRUCache pruning does to a less recently used entry
+    lam, direct = mk(1581)
+    rl, rd = execute(env, lam, False, False), execute(env, direct, False, False)
+    if record:
+        ctx.count("eviction-probe")
+    # through a warm compiled cache the stale bind is re-bound positionally; the stale value is
+    # sent whenever the statement is compiled afresh (compiled cache miss / disabled / .compile())
+    lp = sorted(lam.compile(dialect=env.e.dialect).params.values())
+    dp = sorted(direct.compile(dialect=env.e.dialect).params.values())
+    if lp != dp:
+        rl = dict(rl, sql=rl["sql"] + ["compile().params=%s" % lp])
+        rd = dict(rd, sql=rd["sql"] + ["compile().params=%s" % dp])
+    if (rl["status"], rl.get("rows"), rl["sql"]) != (rd["status"], rd.get("rows"), rd["sql"]):
+        ctx.violation(KEY_EVICT, {"tmpl": "__eviction_probe__", "seq": []}, "after evicting the middle link's lambda-cache entry: lambda %s | direct %s" % (rl["sql"], rd["sql"]))
+        return 1
+    return 0
+
+
 def check_history(ctx, env, name, seq, corr=None, record=True):
+    from sqlalchemy.sql import lambdas as _lm
+
+    # keep the process-wide LRU lambda cache far below its pruning threshold: a PARTIALLY
+    # pruned cache is the state of known finding KEY_EVICT (covered by eviction_probe), it
+    # must not leak into unrelated histories.  A full clear is consistent (everything rebuilt).
+    if len(_lm._closure_per_cache_key) > 500:
+        _lm._closure_per_cache_key.clear()
     fn, _ = TEMPLATES[name]
     nviol = 0
     case = {"tmpl": name, "seq": seq}
@@ -830,6 +875,7 @@ def run(ctx, deep=False):
     env = Env()
     corr = {"cases": [], "impl": [], "req": []} if ctx.driver_ok() else None
     directed_chain_matrix(ctx, env)
+    eviction_probe(ctx, env)
     names = sorted(k for k in TEMPLATES if not k.startswith("directed_"))
     n = 2500 if thorough else 420
     for i in range(n):
@@ -877,6 +923,11 @@ def replay(ctx, obj):
 
     warnings.simplefilter("ignore")
     c = obj["case"]
+    if c.get("tmpl") == "__eviction_probe__":
+        bad = eviction_probe(ctx, Env(), record=False) > 0
+        for v in ctx.violations:
+            print("replay C17: %s — %s" % (v["key"], v["detail"][:400]))
+        return bad
     for (o_, f_), fn_ in DIRECTED.items():
         TEMPLATES.setdefault("directed_%s_%s" % (o_, f_), (fn_, []))
     bad = check_history(ctx, Env(), c["tmpl"], c["seq"], None, record=False) > 0
